@@ -2,6 +2,7 @@
     Statements only; proofs in Proofs/WriterInv.v. *)
 From SF Require Import Model.Bytes Model.ShapeType Model.Shapes Model.Res Model.Encode Model.Writer.
 From SF Require Import Proofs.WriterInv Proofs.BulkTail.
+From SF Require Import Model.Prog Model.Decode Model.Reader Model.Complete Proofs.CompleteBulk.
 Open Scope Z_scope.
 
 (** In every reachable state of a writer that has accepted a first shape, a
@@ -48,3 +49,16 @@ Theorem C10_bulk_is_calls : forall (ss : list shape) (st : wstate) (w : world),
   ((bulk_offered ss st w < length ss)%nat -> last rs (Ok tt) <> Ok tt).
 Proof. exact bulk_is_calls. Qed.
 Print Assumptions C10_bulk_is_calls.
+
+(** The complete writer's bulk helper `write_shapes_and_records` likewise
+    (Proofs/CompleteBulk.v): the single calls up to and including the first that
+    fails - a pair whose shape is of another type is refused there, and by
+    [C08_rejected_call] its row is not written. *)
+Theorem C10_complete_bulk_is_calls : forall (cs : list (shape * rowk * Z)) (st : cwstate) (w : world),
+  let '(rs, st1, w1) := cw_calls (firstn (cbulk_offered cs st w) cs) st w in
+  cw_bulk cs st w = (last rs (Ok tt), st1, w1) /\
+  length rs = cbulk_offered cs st w /\
+  Forall (fun r => r = Ok tt) (removelast rs) /\
+  ((cbulk_offered cs st w < length cs)%nat -> last rs (Ok tt) <> Ok tt).
+Proof. exact cw_bulk_is_calls. Qed.
+Print Assumptions C10_complete_bulk_is_calls.
